@@ -21,7 +21,7 @@ mod verif_kani {
 
     /// sender + up to two other stored peers (owners symbolic in the consumer id), up to two offers
     #[kani::proof]
-    #[kani::unwind(12)]
+    #[kani::unwind(22)]
     #[kani::stub(ServerStartInstant::seconds_elapsed, clock_stub)]
     fn offers_two_peers_two_offers() {
         let now: u32 = kani::any();
@@ -94,7 +94,7 @@ mod verif_kani {
     /// light variant (quick enough to finish): sender stored, at most one other peer, at most one offer, fixed RNG seed
     /// (the selection does not consult the RNG for <= max + 1 peers)
     #[kani::proof]
-    #[kani::unwind(8)]
+    #[kani::unwind(22)]
     #[kani::stub(ServerStartInstant::seconds_elapsed, clock_stub)]
     fn offers_one_peer_one_offer() {
         let now: u32 = kani::any();
